@@ -56,9 +56,47 @@ def _mono_mul(m1, m2):
     return tuple(sorted((a, p) for a, p in d.items() if p != 0))
 
 
+SQRT_CONST: dict[int, Fraction] = {}  # atom id of SQRT(numeral c) -> c   (SQRT(c)^2 = c is applied by the normaliser)
+
+
+def _reduce_sqrt(m, c):
+    if not SQRT_CONST:
+        return m, c
+    out = []
+    for a, p in m:
+        k = SQRT_CONST.get(a)
+        if k is not None:
+            while p >= 2:
+                p -= 2
+                c = c * k
+            while p <= -2:
+                p += 2
+                c = c / k
+            if p == -1:       # 1/sqrt(k) = sqrt(k)/k
+                p = 1
+                c = c / k
+        if p != 0:
+            out.append((a, p))
+    return tuple(out), c
+
+
 def p_mul(a, b):
     if len(a) * len(b) > MAX_TERMS:
         raise PolyTooLarge()
+    r = {}
+    for m1, c1 in a.items():
+        for m2, c2 in b.items():
+            m = _mono_mul(m1, m2)
+            m, cc = _reduce_sqrt(m, c1 * c2)
+            v = r.get(m, 0) + cc
+            if v == 0:
+                r.pop(m, None)
+            else:
+                r[m] = v
+    return r
+
+
+def _p_mul_unused(a, b):
     r = {}
     for m1, c1 in a.items():
         for m2, c2 in b.items():
@@ -142,6 +180,11 @@ def _poly(e):
         rec = z3.RealVal(1) / rebuild(prim)
         RECIPROCALS[rec.get_id()] = rec
         return p_scale(p_mul(poly(ch[0]), _atom(rec)), 1 / lead)
+    if k == z3.Z3_OP_UNINTERPRETED and len(ch) == 1 and e.decl().name() == "SQRT" and (z3.is_rational_value(ch[0]) or z3.is_int_value(ch[0])):
+        r = _atom(e)
+        cv = ch[0]
+        SQRT_CONST[e.get_id()] = Fraction(cv.as_long()) if z3.is_int_value(cv) else Fraction(cv.numerator_as_long(), cv.denominator_as_long())
+        return r
     if k == z3.Z3_OP_UNINTERPRETED and ch:
         # canonicalise real-sorted arguments of uninterpreted applications (ER, COS, SIN, SQRT, operator symbols ...)
         # so that equal arguments written differently yield the same atom
